@@ -29,7 +29,7 @@ static var* R;                  /* stack-resident root slots (scanned by the col
 
 static int K;                   /* universe size */
 static int NV;                  /* number of distinct values (1 or 2) */
-static int two, propC05, propC09, propC10, propC12, pairs_mode, memo;
+static int two, propC05, propC09, propC10, propC12, pairs_mode, memo, alias_op;
 static var KT, VT;              /* key and value types */
 static int kkind, vkind;        /* 0 int, 1 str, 2 probe */
 static var keyobj[MAXK];
@@ -50,7 +50,24 @@ static int hist[4096]; static int hist_n;
 
 static int mcount(struct model* m) { int n = 0; for (int i = 0; i < K; i++) n += m->present[i]; return n; }
 
+static int model_equal(struct model* a, struct model* b) {
+  for (int i = 0; i < K; i++) {
+    if (a->present[i] != b->present[i]) return 0;
+    if (a->present[i] && a->val[i] != b->val[i]) return 0;
+  }
+  return 1;
+}
+
 static const char* kname(void) { return kkind == 0 ? "int" : kkind == 1 ? "str" : "probe"; }
+
+/* name the kind of operation in progress: it is the middle part of every site label, and
+** (through vf.phase) of the label of a crash / hang / sanitizer report during or after it */
+static char phasebuf[96];
+static void kind(const char* k) {
+  lastkind = k;
+  snprintf(phasebuf, sizeof phasebuf, "tree/%s-%s/%s", kkind == 0 ? "int" : kkind == 1 ? "str" : "probe", vkind == 2 ? "probe" : "int", k);
+  vf.phase = phasebuf;
+}
 
 static char labelbuf[160];
 static const char* L(const char* oracle) {
@@ -105,7 +122,7 @@ static void reset(void) {
   TB = NULL; B_managed = 0;
   memset(&MA, 0, sizeof MA); memset(&MB, 0, sizeof MB);
   MA.exists = 1;
-  lastkind = "init";
+  kind("init");
   hist_n = 0;
 }
 
@@ -403,14 +420,14 @@ static int check(void) {
 
 /* ---- alphabet -------------------------------------------------------------------- */
 
-enum { OP_RESIZE0, OP_COPY, OP_ASSIGN_EMPTY, OP_ASSIGN_FULL,
+enum { OP_RESIZE0, OP_COPY, OP_ASSIGN_EMPTY, OP_ASSIGN_FULL, OP_NEW_ARGS, OP_SET_ALIAS,
        OP_B_COPY, OP_B_ASSIGN_FROM_A, OP_A_ASSIGN_FROM_B, OP_B_DEL, OP_B_SET, OP_B_REM, OP_SWAP,
        OP_F_GET_WRONGKEY, OP_F_SET_WRONGKEY, OP_F_SET_WRONGVAL, OP_F_REM_WRONGKEY, OP_F_MEM_WRONGKEY,
        OP_F_GET_NULL, OP_F_SET_NULLKEY, OP_F_SET_NULLVAL, OP_F_REM_NULL, OP_F_MEM_NULL,
        OP_F_RESIZE1, OP_F_RESIZELEN, OP_F_RESIZEBIG,
        OP_NMISC };
 
-static const char* miscname[] = { "resize(0)", "A=copy(A)", "A=assign(new,A)", "A=assign(nonempty,A)",
+static const char* miscname[] = { "resize(0)", "A=copy(A)", "A=assign(new,A)", "A=assign(nonempty,A)", "A=new(Tree,K,V,bindings of A...)", "set(first key yielded by iteration itself, other value)",
     "B=copy(A)", "assign(B,A)", "assign(A,B)", "del(B)", "set(B,k0,v)", "rem(B,k0)", "swap(A,B)",
     "get(wrong-type key)", "set(wrong-type key)", "set(wrong-type val)", "rem(wrong-type key)", "mem(wrong-type key)",
     "get(NULL)", "set(NULL,v)", "set(k0,NULL)", "rem(NULL)", "mem(NULL)",
@@ -424,6 +441,8 @@ static void build_alphabet(void) {
   if (!pairs_mode) misctab[nmisc++] = OP_COPY;
   misctab[nmisc++] = OP_ASSIGN_EMPTY;
   misctab[nmisc++] = OP_ASSIGN_FULL;
+  misctab[nmisc++] = OP_NEW_ARGS;
+  if (alias_op) misctab[nmisc++] = OP_SET_ALIAS;
   if (two) {
     for (int o = OP_B_COPY; o <= OP_B_REM; o++) misctab[nmisc++] = o;
     if (propC10) misctab[nmisc++] = OP_SWAP;
@@ -467,7 +486,7 @@ static int apply_inner(int op) {
   char before[2048];
   if (op < NV * K) {
     int k = op / NV, v = op % NV;
-    lastkind = MA.present[k] ? "set-existing" : "set-new";
+    kind(MA.present[k] ? "set-existing" : "set-new");
     e = VF_CATCH(set(TA, keyobj[k], valobj[v]));
     if (e) { vf_violation(L("raises"), NULL, "set raised %s", vf_exc_name(e)); return VF_BAD; }
     MA.present[k] = 1; MA.val[k] = v;
@@ -476,13 +495,13 @@ static int apply_inner(int op) {
   if (op < NV * K + K) {
     int k = op - NV * K;
     if (MA.present[k]) {
-      lastkind = "rem-present";
+      kind("rem-present");
       e = VF_CATCH(rem(TA, keyobj[k]));
       if (e) { vf_violation(L("raises"), NULL, "rem of a present key raised %s", vf_exc_name(e)); return VF_BAD; }
       MA.present[k] = 0;
       return VF_OK;
     }
-    lastkind = "rem-absent";
+    kind("rem-absent");
     canon(before, sizeof before);
     int64_t lb = vf_led_live;
     e = VF_CATCH(rem(TA, keyobj[k]));
@@ -495,28 +514,51 @@ static int apply_inner(int op) {
   int vb = NV - 1;   /* value used by the B-side and pre-fill operations */
   switch (m) {
   case OP_RESIZE0:
-    lastkind = "resize0";
+    kind("resize0");
     e = VF_CATCH(resize(TA, 0));
     if (e) { vf_violation(L("raises"), NULL, "resize(0) raised %s", vf_exc_name(e)); return VF_BAD; }
     memset(MA.present, 0, sizeof MA.present);
     return VF_OK;
   case OP_COPY: {
-    lastkind = "copy";
+    kind("copy");
     e = VF_CATCH(R[2] = copy(TA));
     if (e) { vf_violation(L("raises"), NULL, "copy raised %s", vf_exc_name(e)); return VF_BAD; }
     del_tree(TA, A_managed); TA = R[2]; R[2] = NULL; A_managed = 1;
     return VF_OK; }
   case OP_ASSIGN_EMPTY: case OP_ASSIGN_FULL: {
-    lastkind = m == OP_ASSIGN_EMPTY ? "assign-into-empty" : "assign-into-nonempty";
+    kind(m == OP_ASSIGN_EMPTY ? "assign-into-empty" : "assign-into-nonempty");
     R[2] = mk_tree();
     if (m == OP_ASSIGN_FULL) { set(R[2], keyobj[0], valobj[vb]); set(R[2], keyobj[K - 1], valobj[vb]); if (K > 2) set(R[2], keyobj[K / 2], valobj[0]); }
     e = VF_CATCH(assign(R[2], TA));
     if (e) { vf_violation(L("raises"), NULL, "assign raised %s", vf_exc_name(e)); del_raw(R[2]); R[2] = NULL; return VF_BAD; }
     del_tree(TA, A_managed); TA = R[2]; R[2] = NULL; A_managed = 0;
     return VF_OK; }
+  case OP_NEW_ARGS: {
+    /* the constructor's own insertion loop: new(Tree, K, V, k, v, k, v, ...) in ascending key order */
+    kind("new-with-bindings");
+    var items[2 * MAXK + 3]; int n = 0;
+    items[n++] = KT; items[n++] = VT;
+    for (int i = 0; i < K; i++) if (MA.present[i]) { items[n++] = keyobj[i]; items[n++] = valobj[MA.val[i]]; }
+    items[n] = Terminal;
+    e = VF_CATCH(R[2] = new_raw_with(Tree, $(Tuple, items)));
+    if (e) { vf_violation(L("raises"), NULL, "new(Tree, K, V, ...) raised %s", vf_exc_name(e)); return VF_BAD; }
+    del_tree(TA, A_managed); TA = R[2]; R[2] = NULL; A_managed = 0;
+    return VF_OK; }
+  case OP_SET_ALIAS: {
+    /* the idiom  foreach (k in t) set(t, k, v):  the key argument is the stored key object itself */
+    var it = iter_init(TA);
+    if (it == Terminal) return VF_SKIP;
+    int k = key_index(it);
+    if (k < 0 || !MA.present[k]) return VF_SKIP;   /* the state oracle reports a wrong first key */
+    int v = (MA.val[k] + 1) % NV;
+    kind("set-existing-by-stored-key");
+    e = VF_CATCH(set(TA, it, valobj[v]));
+    if (e) { vf_violation(L("raises"), NULL, "set raised %s", vf_exc_name(e)); return VF_BAD; }
+    MA.val[k] = v;
+    return VF_OK; }
   case OP_B_COPY:
     if (!two) return VF_SKIP;
-    lastkind = "B=copy(A)";
+    kind("B=copy(A)");
     if (TB) { del_tree(TB, B_managed); TB = NULL; }
     e = VF_CATCH(TB = copy(TA));
     if (e) { vf_violation(L("raises"), NULL, "copy raised %s", vf_exc_name(e)); return VF_BAD; }
@@ -524,42 +566,42 @@ static int apply_inner(int op) {
     return VF_OK;
   case OP_B_ASSIGN_FROM_A:
     if (!two || !TB) return VF_SKIP;
-    lastkind = "assign(B,A)";
+    kind("assign(B,A)");
     e = VF_CATCH(assign(TB, TA));
     if (e) { vf_violation(L("raises"), NULL, "assign raised %s", vf_exc_name(e)); return VF_BAD; }
     MB = MA;
     return VF_OK;
   case OP_A_ASSIGN_FROM_B:
     if (!two || !TB) return VF_SKIP;
-    lastkind = "assign(A,B)";
+    kind("assign(A,B)");
     e = VF_CATCH(assign(TA, TB));
     if (e) { vf_violation(L("raises"), NULL, "assign raised %s", vf_exc_name(e)); return VF_BAD; }
     MA = MB;
     return VF_OK;
   case OP_B_DEL:
     if (!two || !TB) return VF_SKIP;
-    lastkind = "del(B)";
+    kind("del(B)");
     e = VF_CATCH(del_tree(TB, B_managed));
     TB = NULL; memset(&MB, 0, sizeof MB);
     if (e) { vf_violation(L("raises"), NULL, "del raised %s", vf_exc_name(e)); return VF_BAD; }
     return VF_OK;
   case OP_B_SET:
     if (!two || !TB) return VF_SKIP;
-    lastkind = "set(B)";
+    kind("set(B)");
     e = VF_CATCH(set(TB, keyobj[0], valobj[vb]));
     if (e) { vf_violation(L("raises"), NULL, "set raised %s", vf_exc_name(e)); return VF_BAD; }
     MB.present[0] = 1; MB.val[0] = vb;
     return VF_OK;
   case OP_B_REM:
     if (!two || !TB || !MB.present[0]) return VF_SKIP;
-    lastkind = "rem(B)";
+    kind("rem(B)");
     e = VF_CATCH(rem(TB, keyobj[0]));
     if (e) { vf_violation(L("raises"), NULL, "rem raised %s", vf_exc_name(e)); return VF_BAD; }
     MB.present[0] = 0;
     return VF_OK;
   case OP_SWAP: {
     if (!two || !TB || !propC10) return VF_SKIP;
-    lastkind = "swap(A,B)";
+    kind("swap(A,B)");
     e = VF_CATCH(swap(TA, TB));
     if (e) { vf_violation(L("raises"), NULL, "swap raised %s", vf_exc_name(e)); return VF_BAD; }
     struct model t = MA; MA = MB; MB = t;
@@ -571,43 +613,43 @@ static int apply_inner(int op) {
   int64_t lb = vf_led_live;
   switch (m) {
   case OP_F_GET_WRONGKEY:
-    lastkind = "get-wrong-type-key";
+    kind("get-wrong-type-key");
     e = VF_CATCH(get(TA, wrongkey));
     return expect_fail(e, ValueError, TypeError, TypeError, "get with a key of the wrong type", before, lb);
   case OP_F_SET_WRONGKEY:
-    lastkind = "set-wrong-type-key";
+    kind("set-wrong-type-key");
     e = VF_CATCH(set(TA, wrongkey, valobj[0]));
     return expect_fail(e, ValueError, TypeError, TypeError, "set with a key of the wrong type", before, lb);
   case OP_F_SET_WRONGVAL:
-    lastkind = "set-wrong-type-val";
+    kind("set-wrong-type-val");
     e = VF_CATCH(set(TA, keyobj[0], wrongval));
     return expect_fail(e, ValueError, TypeError, TypeError, "set with a value of the wrong type", before, lb);
   case OP_F_REM_WRONGKEY:
-    lastkind = "rem-wrong-type-key";
+    kind("rem-wrong-type-key");
     e = VF_CATCH(rem(TA, wrongkey));
     return expect_fail(e, ValueError, TypeError, TypeError, "rem with a key of the wrong type", before, lb);
   case OP_F_MEM_WRONGKEY:
-    lastkind = "mem-wrong-type-key";
+    kind("mem-wrong-type-key");
     e = VF_CATCH(mem(TA, wrongkey));
     return expect_fail(e, ValueError, TypeError, TypeError, "mem with a key of the wrong type", before, lb);
   case OP_F_GET_NULL:
-    lastkind = "get-null-key";
+    kind("get-null-key");
     e = VF_CATCH(get(TA, NULL));
     return expect_fail(e, ValueError, ValueError, ValueError, "get(NULL)", before, lb);
   case OP_F_SET_NULLKEY:
-    lastkind = "set-null-key";
+    kind("set-null-key");
     e = VF_CATCH(set(TA, NULL, valobj[0]));
     return expect_fail(e, ValueError, ValueError, ValueError, "set with a NULL key", before, lb);
   case OP_F_SET_NULLVAL:
-    lastkind = "set-null-val";
+    kind("set-null-val");
     e = VF_CATCH(set(TA, keyobj[0], NULL));
     return expect_fail(e, ValueError, ValueError, ValueError, "set with a NULL value", before, lb);
   case OP_F_REM_NULL:
-    lastkind = "rem-null-key";
+    kind("rem-null-key");
     e = VF_CATCH(rem(TA, NULL));
     return expect_fail(e, ValueError, ValueError, ValueError, "rem(NULL)", before, lb);
   case OP_F_MEM_NULL:
-    lastkind = "mem-null-key";
+    kind("mem-null-key");
     e = VF_CATCH(mem(TA, NULL));
     return expect_fail(e, ValueError, ValueError, ValueError, "mem(NULL)", before, lb);
   case OP_F_RESIZE1: case OP_F_RESIZELEN: case OP_F_RESIZEBIG: {
@@ -619,7 +661,7 @@ static int apply_inner(int op) {
     size_t n = m == OP_F_RESIZE1 ? 1 : m == OP_F_RESIZELEN ? l : l + 7;
     if (m == OP_F_RESIZE1 && l == 1) return VF_SKIP;   /* same request as resize(len) */
     if (n == 0) return VF_SKIP;                         /* resize(0) is the valid clear */
-    lastkind = m == OP_F_RESIZE1 ? "resize-1" : m == OP_F_RESIZELEN ? "resize-len" : "resize-grow";
+    kind(m == OP_F_RESIZE1 ? "resize-1" : m == OP_F_RESIZELEN ? "resize-len" : "resize-grow");
     e = VF_CATCH(resize(TA, n));
     if (e == NULL) return n >= l ? VF_OK : VF_SKIP;
     return expect_fail(e, FormatError, ResourceError, ValueError, "resize(n>0) of a Tree", before, lb); }
@@ -673,7 +715,7 @@ static void collect_current(void) {
 static int nontrivial(void) {
   int nt = TA ? nontrivial_tree(TA) : 0;
   /* two trees: non-trivial when B exists and differs from A (independence is then observable) */
-  if (two) nt = TB != NULL && memcmp(&MA.present, &MB.present, sizeof MA.present + sizeof MA.val) != 0;
+  if (two) nt = TB != NULL && !model_equal(&MA, &MB);
   if (pairs_mode) collect_current();
   return nt;
 }
@@ -796,8 +838,22 @@ static void pairs_phase(void) {
         vf_violation(lab, kase, "cmp(a,b)=%d but cmp(b,a)=%d", S[i * n + j], S[j * n + i]); bad++;
       }
     }
-    uint64_t triples = 0;
+    /* S is a total preorder  <=>  S[i][j] == sign(r(i) - r(j)) with r(i) = #{ j : S[i][j] > 0 }  (O(n^2), exact) */
+    size_t* rank = calloc(n, sizeof *rank);
+    for (size_t i = 0; i < n; i++) for (size_t j = 0; j < n; j++) if (S[i * n + j] > 0) rank[i]++;
     for (size_t i = 0; i < n && !bad; i++) for (size_t j = 0; j < n && !bad; j++) {
+      int want = rank[i] < rank[j] ? -1 : rank[i] > rank[j] ? 1 : 0;
+      if (S[i * n + j] != want) {
+        char kase[8192]; snprintf(kase, sizeof kase, "pair a=%s b=%s | a is %s, b is %s", PT[i].hist, PT[j].hist, PT[i].canon, PT[j].canon);
+        snprintf(lab, sizeof lab, "tree/%s/cmp/not-a-total-preorder", kname());
+        vf_violation(lab, kase, "the observed signs are not those of any total preorder (transitivity fails): cmp(a,b)=%d, a is above %zu trees, b above %zu", S[i * n + j], rank[i], rank[j]); bad++;
+      }
+    }
+    free(rank);
+    vf.evaluations += (uint64_t)n * n;
+    /* and literally, every ordered triple, while that is affordable */
+    uint64_t triples = 0;
+    for (size_t i = 0; n <= 1000 && i < n && !bad; i++) for (size_t j = 0; j < n && !bad; j++) {
       int8_t ab = S[i * n + j];
       if (ab > 0) continue;
       for (size_t k = 0; k < n; k++) {
@@ -871,7 +927,7 @@ static void ladder(void) {
       if (vf_deadline_hit()) goto done;
       vf_watchdog(300);
       vf_set_cur("ladder n=%d insert-order=%d remove-order=%d | %s keys, insert %s, remove %s", N, ord, rord, kname(), oname[ord], oname[rord]);
-      lastkind = "ladder";
+      kind("ladder");
       var t = new_raw(Tree, KT, Int);
       struct Tree* m = t;
       char* present = calloc((size_t)N, 1);
@@ -889,13 +945,13 @@ static void ladder(void) {
           var key = kkind == 1 ? (var)$S(kb) : (var)$I(k);
           var e;
           if (pass == 0) {
-            lastkind = "ladder-insert";
+            kind("ladder-insert");
             e = VF_CATCH(set(t, key, $I(k % 10)));
             if (e) { vf_violation(L("raises"), NULL, "set raised %s at step %d", vf_exc_name(e), i); bad = 1; break; }
             if (present[k]) { vf_violation(L("harness"), NULL, "permutation repeats key %d", k); bad = 1; break; }
             present[k] = 1; count++;
           } else {
-            lastkind = "ladder-remove";
+            kind("ladder-remove");
             e = VF_CATCH(rem(t, key));
             if (e) { vf_violation(L("raises"), NULL, "rem of present key %d raised %s at step %d", k, vf_exc_name(e), i); bad = 1; break; }
             present[k] = 0; count--;
@@ -976,6 +1032,7 @@ int main(int argc, char** argv) {
   if (NV < 1) NV = 1; if (NV > 2) NV = 2;
   two = (int)vf_param_i("two", 0);
   memo = (int)vf_param_i("memo", 1);
+  alias_op = (int)vf_param_i("alias", 0);
   const char* prop = vf_param("prop", "C03");
   propC05 = strcmp(prop, "C05") == 0;
   propC09 = strcmp(prop, "C09") == 0;
